@@ -60,7 +60,7 @@ def make_case(v, variant, k):
     cmd = "cd" if variant == "cd" else "vpa"
     return {"name": name, "ctx": ctx, "variant": variant, "prefix": prefix, "line": "%s %s%s" % (cmd, opener, typed),
             "entries": entries, "for_dir": variant == "cd", "pinned_ok": v["pinned_ok"],
-            "feat": {"ctx": ctx, "variant": variant, "specials": sorted(set(name) & META), "first": name[:1], "name": name,
+            "feat": {"ctx": ctx, "variant": variant, "specials": sorted(set(name) & META), "first": name[:1], "name": name, "blank_tilde": " ~" in name, "nbackquote": name.count("`"),
                      "is_dir": is_dir,
                      "model_pinned_ok": v["pinned_ok"], "len": len(name)}}
 
@@ -173,11 +173,14 @@ def runner(rep, tier, seed, replay):
         rep.cov["evaluations"] = 1
         return rep.finish(rule="replay of one recorded case")
     raw = []
-    r = run_tlc("MCComplete", "MCComplete_2" if tier == "quick" else "MCComplete_3", on_replay=raw.append, keep_replays=False, timeout=3000)
-    if r.violation:
-        raise ToolError("the inverse escaping violates RoundTrip at the design level:\n" + r.violation[:2000])
-    check_action_coverage(r, ["Add", "Finish"])
-    rep.add_tlc(r)
+    for cfg in (["MCComplete_2"] if tier == "quick" else ["MCComplete_2", "MCComplete_3r"]):
+        r = run_tlc("MCComplete", cfg, on_replay=raw.append, keep_replays=False, timeout=3000)
+        if r.violation:
+            raise ToolError("the inverse escaping violates RoundTrip at the design level:\n" + r.violation[:2000])
+        check_action_coverage(r, ["Add", "Finish"])
+        rep.add_tlc(r)
+    seen_nc = set()
+    raw = [v for v in raw if (v["name"], v["ctx"]) not in seen_nc and not seen_nc.add((v["name"], v["ctx"]))]
     rp = run_tlc("MCComplete", "MCComplete_pinned", coverage=False)
     rep.add_tlc(rp)
     model_says_pinned_fails = bool(rp.violation)
@@ -277,7 +280,8 @@ def runner(rep, tier, seed, replay):
                            "open \"} enumerated by TLC from spec/MCComplete.tla, as a file (all), a directory, one of several candidates with a "
                            "shared prefix, and after cd (subsets), completed from a 1..2 character prefix; in-process for all, pty for every "
                            "mismatch cluster and a sample of matches; non-trivial = the name contains a special character; distinct by "
-                           "(name, context, variant)" % (2 if tier == "quick" else 3))
+                           "(name, context, variant)%s" % (2, "" if tier == "quick" else "; thorough adds every name of length 3 over the reduced alphabet {a, blank, ' \" # & ; ( ! = ? , {, multi-byte} "
+                           "(the characters without a recorded finding)"))
 
 
 def main():
